@@ -50,3 +50,14 @@ Theorem C15_iter_nth : forall (A : Type) (l : list A) n,
   fst (gi_nth l n) = nth_error l n /\ snd (gi_nth l n) = skipn (S n) l.
 Proof. intros. apply gi_nth_spec. Qed.
 Print Assumptions C15_iter_nth.
+
+Theorem C15_iter_next_back : forall (A : Type) (l : list A) x,
+  gi_next_back (l ++ [x]) = (Some x, l) /\ gi_next_back (@nil A) = (None, []).
+Proof. intros. split; [apply gi_next_back_spec|apply gi_next_back_nil]. Qed.
+Print Assumptions C15_iter_next_back.
+
+(* nth_back(n): the n-th child from the back; everything in front of it remains; past the front: exhausted *)
+Theorem C15_iter_nth_back : forall (A : Type) (l : list A) n,
+  fst (gi_nth_back l n) = nth_error (rev l) n /\ snd (gi_nth_back l n) = firstn (length l - S n) l.
+Proof. intros. apply gi_nth_back_spec. Qed.
+Print Assumptions C15_iter_nth_back.
